@@ -39,20 +39,18 @@ class ChunkIntrinsics(Intrinsics):
 
         @reg(H + "memHash")
         def mem_hash(eng, st, fr, args, ins):
-            # uninterpreted per length: equal contents hash equal, anything else is the solver's choice (collisions included)
-            bs = eng.slice_read_all(st, args[0], ins.get("pos"))
-            n = len(bs)
-            f = self.uf.get(n)
-            if f is None:
-                f = z3.Function("memhash%d" % n, *([z3.BitVecSort(8)] * n + [z3.BitVecSort(64)])) if n else None
-                self.uf[n] = f
-            if n == 0:
-                t = self.uf.get("h0")
-                if t is None:
-                    t = z3.BitVec("memhash0", 64)
-                    self.uf["h0"] = t
-                return t
-            return f(*[bv(b, 8) for b in bs])
+            # the runtime hash is seeded per process: any function of the content is possible. Each call gets a
+            # fresh (replayable) symbol; equal contents are constrained to hash equal (Ackermann expansion).
+            bs = [bv(b, 8) for b in eng.slice_read_all(st, args[0], ins.get("pos"))]
+            h = eng.fresh("memhash", 64)
+            st.nondet.append(("memhash", h, 64))
+            prev = st.notes.get("memhash", ())
+            for pb, ph in prev:
+                if len(pb) == len(bs):
+                    same = z3.And([x == y for x, y in zip(pb, bs)]) if bs else z3.BoolVal(True)
+                    st.pc.append(z3.Implies(same, ph == h))
+            st.notes["memhash"] = prev + ((tuple(bs), h),)
+            return h
 
         @reg(H + "appendFloat")
         def append_float(eng, st, fr, args, ins):
